@@ -10,11 +10,16 @@
   * `C01_stream_well_formed`: on every input the parser model's callback stream is a
     well-formed traversal (instance of C04), so every reported object sits in the scope of
     the innermost open block — "in the scope where it was written";
-  * `C01_result_is_fold`: what `parse_string` returns is the fold of that stream.
+  * `C01_result_is_fold`: what `parse_string` returns is the fold of that stream;
+  * `C01_each_payload_stored_once`: every item callback of the stream adds exactly one object
+    to the result and block callbacks add none: after any stream that folds without error
+    the number of stored objects equals the number of item callbacks (nothing lost, nothing
+    stored twice) — `Theorems/FoldCount.lean`.
 -/
 import CxxModel.Tables
 import CxxModel.Props.C04
 import CxxModel.SimpleFold
+import CxxModel.Theorems.FoldCount
 namespace Cxx
 
 theorem C01_dispatch : Gen.dispatchTable.length = 20 ∧ Gen.dispatchTable.lookup ";" = some "<lambda:Constant(None)>" ∧
@@ -50,5 +55,18 @@ theorem C01_fold_append (a b : List Event) : ∀ (i : Nat) (fs fs' : FoldState),
       simp only [List.length_cons]
       congr 1
       omega
+
+
+theorem C01_each_payload_stored_once (evs : List Event) (i : Nat) (fs fs' : FoldState)
+    (hn : noParseStart evs = true) (h : foldEvents evs i fs = .ok fs') :
+    fs'.total = fs.total + itemCount evs :=
+  foldEvents_total evs i fs fs' hn h
+
+theorem C01_one_callback (fs fs' : FoldState) (e : Event) (h : foldStep fs e = .ok fs') :
+    fs'.total = (match e.kind with
+      | .parseStart => 0
+      | .item _ => fs.total + 1
+      | _ => fs.total) :=
+  foldStep_total fs fs' e h
 
 end Cxx
